@@ -90,6 +90,7 @@ structure Sess where
   holdTime : Nat                      -- FSM.hold_time (seconds); keep_alive_time = holdTime / 3 s = holdTime ticks
   proto : Option Nat := none          -- FSM.protocol
   estab : Option Nat := none          -- BGPPeering.estab_protocol
+  pending : Option Nat := none        -- BGPPeering.connector: the connector of the last attempt started
   conns : List Conn := []
   localCaps : LocalCaps
   remote : CapaDict := {}             -- running_config['capability']['remote']
@@ -113,6 +114,7 @@ def withRetryCounter (s : Sess) (v : Nat) : Sess := { s with retryCounter := v }
 def withHoldTime (s : Sess) (v : Nat) : Sess := { s with holdTime := v }
 def withProto (s : Sess) (v : Option Nat) : Sess := { s with proto := v }
 def withEstab (s : Sess) (v : Option Nat) : Sess := { s with estab := v }
+def withPending (s : Sess) (v : Option Nat) : Sess := { s with pending := v }
 def withConns (s : Sess) (v : List Conn) : Sess := { s with conns := v }
 def withLocalCaps (s : Sess) (v : LocalCaps) : Sess := { s with localCaps := v }
 def withRemote (s : Sess) (v : CapaDict) : Sess := { s with remote := v }
@@ -225,10 +227,20 @@ def incRetryCounter (s : Sess) : Sess := s.withRetryCounter (s.retryCounter + 1)
 def errorClose (s : Sess) : Sess :=
   ((s.withTm { retry := none, hold := none, keepalive := none, idleHold := some s.idleDeadline }).closeConn).incRetryCounter.setSt .idle
 
+/-- BGPPeering.abort_pending_connect: the attempt still in flight (if any) is given up.  `connector.stopConnecting()`
+    reports the failure to `clientConnectionFailed`, which ignores a connector that is not `self.connector` any more. -/
+def abortPending (s : Sess) : Sess :=
+  match s.pending with
+  | none => s
+  | some j =>
+    if (s.conn j).phase = .connecting then (s.withPending none).setPhase j .closed else s.withPending none
+
 /-- BGPPeering.connect -/
 def connectTcp (s : Sess) : Sess :=
-  if s.st ≠ .established then (s.withConns (s.conns ++ [({} : Conn)])).emit (.connect s.conns.length)
-  else s
+  if s.abortPending.st ≠ .established then
+    ((s.abortPending.withConns (s.abortPending.conns ++ [({} : Conn)])).emit (.connect s.abortPending.conns.length)).withPending
+      (some s.abortPending.conns.length)
+  else s.abortPending
 
 /-- BGPPeering.automatic_start(idle_hold) (with FSM.automatic_start inlined) -/
 def autoStart (s : Sess) (idleHold : Bool) : Sess :=
@@ -267,7 +279,7 @@ def manualStart (s : Sess) : Sess :=
   | _ => s.emit (.retStart 0)
 
 def manualStop (s : Sess) : Sess :=
-  ((((((if s.st = .established then s.sendNotification C.errCease 0 [] else s).withTm {}).closeConn).withRetryCounter 0).withAllow false).setSt .idle).emit .retStop
+  (((((((if s.st = .established then s.sendNotification C.errCease 0 [] else s).withTm {}).closeConn).withRetryCounter 0).withAllow false).setSt .idle).abortPending).emit .retStop
 
 /-! ### connection events -/
 
@@ -282,9 +294,11 @@ def connOk (s : Sess) (i : Nat) : Sess :=
   ((((((s.setPhase i .connected).withProto (some i)).setSt .connect).withEstab (some i)).withBgpId
       (some (s.bgpId.getD s.cfg.localId)))).connectionMade
 
-/-- a pending connectTCP failed (refused, timed out) -/
+/-- a pending connectTCP failed (refused, timed out): clientConnectionFailed - ignored for a connector that is not
+    `self.connector` (one the peering has given up itself) -/
 def connFail (s : Sess) (i : Nat) : Sess :=
-  ((s.setPhase i .closed).emit .hConnFailed).connectionFailed
+  if s.pending = some i then (((s.withPending none).setPhase i .closed).emit .hConnFailed).connectionFailed
+  else s.setPhase i .closed
 
 /-- connectionLost delivered for connection `i` (peer closed, or our close completed) -/
 def connLost (s : Sess) (i : Nat) : Sess :=
